@@ -130,6 +130,8 @@ pub struct Outcome {
     /// At the first step at which the stop flag is seen set: (largest number of undelivered messages in one
     /// data queue (crossbeam), largest capacity among the bounded data queues of the run).
     pub backlog_at_stop: Option<(u64, u64)>,
+    /// Largest capacity requested for a bounded data queue (slots allocated at creation by the real crate).
+    pub max_capacity_request: u64,
 }
 
 impl Outcome {
@@ -271,6 +273,15 @@ pub fn set_stop_flag(flag: Arc<AtomicBool>) {
     let mut g = lock_rt();
     if let Some(rt) = g.as_mut() {
         rt.stop_flag = Some(flag);
+    }
+}
+
+pub(crate) fn note_capacity_request(cap: usize) {
+    let mut g = lock_rt();
+    if let Some(rt) = g.as_mut() {
+        if rt.active {
+            rt.out.max_capacity_request = rt.out.max_capacity_request.max(cap as u64);
+        }
     }
 }
 
